@@ -49,9 +49,22 @@ ByteClasses  == {"zero", "one", "max", "max-1", "hi7f", "hi80", "inc", "dec", "d
 \* nesting limits exist for.  No function of the old bytes produces them; the value is a fact of
 \* the structural walk, carried by the field as sv / pv (-1 = the field has no such reference).
 RefClasses   == {"self", "parent"}
-ValueClasses == ByteClasses \cup RefClasses
+\* relational classes: the field is an element of an array (of scalars, or the same member of
+\* consecutive records) and its new value is a function of the element before it ("prev") or after
+\* it ("next"): equal to it (a duplicate in a sorted array, an empty range, a zero divisor between
+\* two keys), adjacent to it (sibling + 1 / - 1: off by one at the boundary; for the element on the
+\* other side an inversion of the order: prev - 1 < prev, next + 1 > next), and such that the sum of
+\* field and sibling wraps the field's width as an unsigned ("uwrap": 2^n - sibling) or as a signed
+\* number ("swrap": 2^(n-1) - sibling = max of the type - sibling + 1).  No function of the old bytes
+\* produces them; the walk says where the siblings are (po / no = position of the previous / next
+\* element, -1 = none), the value is read from the bytes the fault is applied to.
+PrevClasses  == {"eqprev", "prev+1", "prev-1", "uwrap-prev", "swrap-prev"}
+NextClasses  == {"eqnext", "next-1", "next+1", "uwrap-next", "swrap-next"}
+RelClasses   == PrevClasses \cup NextClasses
+ValueClasses == ByteClasses \cup RefClasses \cup RelClasses
 RefRoles     == {"offset", "index"}
-ClassApplies(vc, role) == vc \in RefClasses => role \in RefRoles
+RelRoles     == {"count", "offset", "length", "index", "value"}
+ClassApplies(vc, role) == (vc \in RefClasses => role \in RefRoles) /\ (vc \in RelClasses => role \in RelRoles)
 Levels       == {"dir", "table"}
 FaultKinds   == {"Overwrite", "Truncate", "RemoveTable", "ShrinkLength", "SwapTables"}
 TruncWhere   == {"at", "inside"}
@@ -91,10 +104,14 @@ Inc(a)  == AddC(a, Zeros(Len(a)), 1)
 Dec(a)  == AddC(a, Ones(Len(a)), 0)
 Dbl(a)  == AddC(a, a, 0)
 Half(a) == HalfC(a, 0)
+Not(a)  == [k \in 1 .. Len(a) |-> 255 - a[k]]
+Neg(a)  == AddC(Not(a), Zeros(Len(a)), 1)                \* 2^(8 Len(a)) - a
+Hi80(w) == [k \in 1 .. w |-> IF k = 1 THEN 128 ELSE 0]
 
 \* the value a class names for a field that held `old` (Len(old) = width); sv / pv: the references
-\* of the field (numbers below 2^31; the low-order bytes are written, as a reader of the field sees them)
-NewValue(vc, old, flen, tlen, sv, pv) ==
+\* of the field (numbers below 2^31; the low-order bytes are written, as a reader of the field sees them);
+\* pb / nb: the bytes of the previous / next element of the array the field belongs to (same width; <<>> = none)
+NewValue(vc, old, flen, tlen, sv, pv, pb, nb) ==
   LET w == Len(old) IN
   CASE vc = "zero"     -> Zeros(w)
     [] vc = "one"      -> BytesOf(1, w)
@@ -109,13 +126,25 @@ NewValue(vc, old, flen, tlen, sv, pv) ==
     [] vc = "tablelen" -> BytesOf(tlen, w)
     [] vc = "self"     -> BytesOf(sv, w)
     [] vc = "parent"   -> BytesOf(pv, w)
+    [] vc = "eqprev"   -> pb
+    [] vc = "eqnext"   -> nb
+    [] vc = "prev+1"   -> Inc(pb)
+    [] vc = "next-1"   -> Dec(nb)
+    [] vc = "prev-1"   -> Dec(pb)
+    [] vc = "next+1"   -> Inc(nb)
+    [] vc = "uwrap-prev" -> Neg(pb)
+    [] vc = "uwrap-next" -> Neg(nb)
+    [] vc = "swrap-prev" -> AddC(Hi80(w), Neg(pb), 0)
+    [] vc = "swrap-next" -> AddC(Hi80(w), Neg(nb), 0)
 
 \* a reference class applies to a field that has the reference
 HasRef(vc, sv, pv) == (vc = "self" => sv >= 0) /\ (vc = "parent" => pv >= 0)
+\* a relational class applies to a field whose sibling is there (w = width of the field)
+HasRel(vc, w, pb, nb) == (vc \in PrevClasses => Len(pb) = w) /\ (vc \in NextClasses => Len(nb) = w)
 
 ---------------------------------------------------------------------------
 \* Faults on byte strings.  Positions are 0-based.
-\*   [k |-> "Overwrite", off, w, vc, tlen, sv, pv]
+\*   [k |-> "Overwrite", off, w, vc, tlen, sv, pv, po, no]   po / no: position of the previous / next element, -1 = none
 \*   [k |-> "Truncate", at]
 \*   [k |-> "RemoveTable", rec, size, cnt, idx, n]   record at rec (size bytes, index idx of n), count at cnt (u16)
 \*   [k |-> "ShrinkLength", off, mode]               u32 length field at off
@@ -125,12 +154,17 @@ Patch(bs, p, new) == [k \in 1 .. Len(bs) |-> IF k > p /\ k <= p + Len(new) THEN 
 Window(bs, p, w)  == SubSeq(bs, p + 1, p + w)
 InFile(bs, p, w)  == p >= 0 /\ p + w <= Len(bs)
 
+\* the bytes of a sibling element: read from the bytes the fault is applied to (an earlier fault of the
+\* sequence may have changed them); none when the walk knows no sibling or it fell off a truncated file
+Sibling(bs, p, w) == IF p >= 0 /\ InFile(bs, p, w) THEN Window(bs, p, w) ELSE <<>>
+
 \* a fault whose target no longer lies inside the (already truncated) file does nothing; neither does
-\* a reference class on a field without that reference
+\* a reference class on a field without that reference, nor a relational class on a field without that sibling
 Apply(bs, f) ==
   CASE f.k = "Overwrite" ->
-         IF InFile(bs, f.off, f.w) /\ HasRef(f.vc, f.sv, f.pv)
-         THEN Patch(bs, f.off, NewValue(f.vc, Window(bs, f.off, f.w), Len(bs), f.tlen, f.sv, f.pv)) ELSE bs
+         LET pb == Sibling(bs, f.po, f.w)  nb == Sibling(bs, f.no, f.w) IN
+         IF InFile(bs, f.off, f.w) /\ HasRef(f.vc, f.sv, f.pv) /\ HasRel(f.vc, f.w, pb, nb)
+         THEN Patch(bs, f.off, NewValue(f.vc, Window(bs, f.off, f.w), Len(bs), f.tlen, f.sv, f.pv, pb, nb)) ELSE bs
     [] f.k = "Truncate" -> SubSeq(bs, 1, IF f.at < Len(bs) THEN f.at ELSE Len(bs))
     [] f.k = "RemoveTable" ->
          LET last == f.rec + (f.n - f.idx) * f.size IN      \* end of the directory
